@@ -804,6 +804,10 @@ class Polyhedron(Shape3D):
 
         """
         principal_moments, principal_axes = np.linalg.eigh(self.inertia_tensor)
+        # The eigenvectors form an orthogonal matrix, but its determinant may be -1
+        # (a reflection). Flip one axis so that the shape is rotated, never mirrored.
+        if np.linalg.det(principal_axes) < 0:
+            principal_axes[:, 0] *= -1
         self._vertices = np.dot(self._vertices, principal_axes)
 
     def compute_form_factor_amplitude(self, q, density=1.0):  # noqa: D102
